@@ -155,9 +155,13 @@ func (a *cfAPI) handle(w http.ResponseWriter, r *http.Request) {
 		}
 		var match []*cfRecord
 		for _, rec := range z.Records {
-			if t := q.Get("type"); t == "" || t == rec.Type {
-				match = append(match, rec)
+			if t := q.Get("type"); t != "" && t != rec.Type {
+				continue
 			}
+			if n := q.Get("name"); n != "" && !strings.EqualFold(n, rec.Name) {
+				continue // the API's exact-name filter
+			}
+			match = append(match, rec)
 		}
 		lo, hi := (page-1)*per, page*per
 		if lo > len(match) {
